@@ -13,7 +13,10 @@ RULE = ("MC: CGApi as-built state machine (MCApi reach config from the empty cir
         "code->spec: seeded random histories (5-25 calls of add / connect / disconnect / remove / set_output / add_blackbox / "
         "add_subcircuit / fill_blackbox with valid, invalid, duplicate, self-referential, dotted and digit-initial arguments "
         "over a 12-name universe, from the empty circuit or a random circuit with flops) judged step by step by TLC "
-        "(JudgeApi: invariants, action properties, and agreement with the as-built model). distinct = distinct histories; "
+        "(JudgeApi: invariants, action properties, and agreement with the as-built model); the repository's own test suite run "
+        "with the mutators of Circuit wrapped (cgv.testtrace, no source change): every history the tests and the library code "
+        "they call perform on circuits of <= 14 nodes (about 400 histories, 2000 calls) judged the same way (calls outside the "
+        "property's list - set_type, relabel, parser-only forms of add - are opaque steps). distinct = distinct histories; "
         "non-trivial = history contains at least one rejected call and one accepted state-changing call")
 
 
@@ -234,7 +237,38 @@ def norm_compact(s):
             "b": sorted([i, t, sorted(ins), sorted(outs)] for i, t, ins, outs in s["b"])}
 
 
+def testsuite_histories(ctx):
+    """The repository's own test suite run with the mutators of Circuit wrapped (cgv.testtrace): every API history the
+    tests - and the library code they call - perform on small circuits, as api_history events."""
+    import subprocess
+    import sys
+    import circuitgraph
+
+    repo = os.path.dirname(os.path.dirname(os.path.abspath(circuitgraph.__file__)))
+    out = os.path.join(ctx.scratch, "testtrace_%d.ndjson" % ctx.hashseed)
+    # as in the pinned baseline: WITHOUT the pysat stand-in (the SAT-dependent tests fail on import and are not part of it;
+    # with the slow stand-in they would run for hours on the bundled benchmark circuits)
+    harness = os.path.dirname(os.path.dirname(os.path.dirname(os.path.abspath(__file__))))
+    env = dict(os.environ, CGV_TESTTRACE_OUT=out, PYTHONPATH=os.pathsep.join([harness, repo]))
+    p = subprocess.run([sys.executable, "-m", "pytest", "-q", "-p", "no:cacheprovider", "-p", "cgv.testtrace", "--timeout=900",
+                        "--continue-on-collection-errors", "tests"], cwd=repo, env=env, capture_output=True, text=True, timeout=600)
+    ctx.count("testsuite_pytest_exit_%d" % p.returncode)
+    evs = []
+    if os.path.exists(out):
+        with open(out) as f:
+            for line in f:
+                e = json.loads(line)
+                e["nontrivial"] = len(e["steps"]) >= 3 or any(s["exc"] for s in e["steps"])
+                e["tags"] = sorted({s["op"] for s in e["steps"] if s["exc"]})
+                e["src"] = "TESTSUITE"
+                evs.append(e)
+    ctx.count("testsuite_histories", len(evs))
+    ctx.count("testsuite_steps", sum(len(e["steps"]) for e in evs))
+    return evs
+
+
 def cases(ctx):
+    yield {"op": "testsuite", "src": "TESTSUITE"}
     for name in ("conn", "add", "comp"):
         for k, t in enumerate(ctx.emitted(name)):
             yield {"op": "transition", "t": t, "k": k, "src": "TLCSTEP"}
@@ -314,6 +348,8 @@ def run_case(case, ctx):
 
     if case.get("op") == "transition":
         return run_transition(case, ctx)
+    if case.get("op") == "testsuite":
+        return testsuite_histories(ctx)
     c = build(case["init"]) if case.get("init") else cg.Circuit()
     init = proj(c)
     steps = []
